@@ -329,6 +329,7 @@ class Unit:
         self.stubbed = []
         self.dropped_rewrites = []  # rewrite rules whose pattern no longer occurs
         self.dropped_shims = []     # functions in which a dropped rewrite left an unspecified remnant behind
+        self.unannotated_closures = []
         self.unannotated = []       # functions whose body has more loops than the sidecar annotates
 
     def emit(self, text, src=None):
@@ -817,6 +818,18 @@ class Unit:
         assert len(newlines) == len(srcidx)
         for k, t in zip(srcidx, newlines):
             self.lines[k] = (t, self.lines[k][1])
+        # closures in the emitted SOURCE lines that carry no `ensures`: what a library function does with such a closure is
+        # unknown to the verifier (Option::map, iterator adapters ...), so a failed obligation in this function says
+        # nothing about the code - undecided.  (The closures of the unchanged tree are all rewritten / annotated.)
+        code = re.sub(r'"(?:[^"\\]|\\.)*"', '""', "\n".join(t.split("//")[0] for t in newlines))
+        n_cl = 0
+        for m in re.finditer(r"(?<![|&])\|(?!\|)([^|\n]*)\|(?!\|)", code):
+            tail = code[m.end():m.end() + 200]
+            if "ensures" in tail.split(";")[0]:
+                continue
+            n_cl += 1
+        if n_cl:
+            self.unannotated_closures.append("%s: %d closure(s) without a specification" % (fid, n_cl))
         self.functions.append(fn)
         self.cur_fn = None
 
@@ -837,6 +850,7 @@ class Unit:
             "dropped_shims": self.dropped_shims,
             "stubbed": self.stubbed,
             "unannotated_loops": self.unannotated,
+            "unannotated_closures": self.unannotated_closures,
         }
 
 
